@@ -109,6 +109,7 @@ def properties_of(v, job, default_keys=None):
     if rule.startswith("scanner-"):
         out.add("C12")
         out.add("C13")
+        out.add("C02")  # filtered by the C02 check: only deviations that depend on where the buffer ends
         # the entry-point explorations assume the scanner contract: the grammar properties that
         # rest on this scanner are not established without it
         name = job["root"].split("::")[-1]
@@ -232,7 +233,7 @@ class Check:
                                {"rule": "engine-failure", "job": job, "error": (res or {}).get("error"), "traceback": (res or {}).get("traceback")})
                 self.obligations += 1
                 continue
-            if res.get("budget"):
+            if res.get("budget") and not (job["kind"] == "scanner" and pid not in ("C01", "C12", "C13", "C20")):
                 self.violation("unanalysable:budget|%s" % job["root"], {"rule": "unanalysable:budget", "job": job, "detail": res["budget"]})
                 self.obligations += 1
             for u in res.get("unanalysable", []):
